@@ -800,9 +800,12 @@ def law_dts(env, vx, vg):
         env.ctx.count("dts:skipped-tilted")
         return None
     vx, vg = np.asarray(vx, dtype=float), np.asarray(vg, dtype=float)
-    fin = np.isfinite(vx) & (vx < 1e3 * env.dx)
-    # directions through a vertex are the seams between two edge formulas: both are exact there, but the
-    # formulas blow up next to an edge parallel to the ray; skip non-finite / absurd values on x
+    finx, fing = np.isfinite(vx), np.isfinite(vg)
+    if np.any(finx != fing):
+        k = int(np.where(finx != fing)[0][0])
+        return "distance_to_surface is finite on one side of g only: theta=%r: %r vs %r" % (
+            float(env.pr["angles_x"][k]), float(vx[k]), float(vg[k]))
+    fin = finx
     env.ctx.count("dts:angles", int(fin.sum()))
     if not env.close(vx[fin] * env.s, vg[fin], env.dg, 1e-7):
         k = int(np.argmax(np.abs(vx[fin] * env.s - vg[fin])))
@@ -881,7 +884,12 @@ def miniball_ok(env, name):
         v = env.val(which, name.replace("_radius", ""))
         if v is None:
             continue
-        if not ball_contract(np.asarray(shp.vertices, dtype=float), v["center"], v["radius"]):
+        ok = ball_contract(np.asarray(shp.vertices, dtype=float), v["center"], v["radius"])
+        if ok and name.endswith("_radius"):
+            # the radius getter is a separate (randomised) miniball run: it must reproduce the certified ball
+            rv = env.val(which, name)
+            ok = rv is not None and abs(rv - v["radius"]) <= 1e-6 * v["radius"]
+        if not ok:
             env.ctx.contract_failures.append({"contract": "miniball returns the minimal enclosing ball",
                                               "query": name, "side": which, "cls": env.cls,
                                               "radius": v["radius"], "center": v["center"].tolist(),
@@ -1471,7 +1479,7 @@ def run(ctx):
                 eval_window_case(ctx, case, gs[0])
             else:
                 eval_case(ctx, case, gs)
-    n = ctx.budget(70, 1400)
+    n = ctx.budget(180, 2500)
     for _ in range(n):
         case = new_case(ctx.rng, ctx)
         gs = choose_gs(ctx.rng, case, ctx)
